@@ -2,7 +2,7 @@
    own socket from the pair's remote address.  Single agent, full (non-lite), for every operation. *)
 From Coq Require Import ZArith Bool List Lia.
 From Ice Require Import Model.AgentTypes Model.AgentCore Model.PairMonitor Model.TwoAgents Gen.Consts Gen.Lifecycle Proofs.AgentFrame Proofs.AgentC06
-     Proofs.AgentC03Sel Proofs.AgentLoc Proofs.TwoAgentsProofs.
+     Proofs.AgentC03Sel Proofs.AgentLoc Proofs.AgentRem Proofs.TwoAgentsProofs.
 Import ListNotations.
 Local Open Scope Z_scope.
 
@@ -97,6 +97,120 @@ Lemma SK_add_remote_body c set : no_supersede c set -> satG SK mp_true (add_remo
 Proof.
   intros Hn. unfold add_remote_body. unfold no_supersede in Hn. rewrite Hn. cbn [for_each].
   satG_split_eq; try sk_leaf. all: try (apply SK_pairing).
+Qed.
+
+(* ---- superseding a peer-reflexive candidate keeps the key of every valid pair ------------------------------ *)
+Definition same_addr_as (c : cand) (red : list cand) (s : state) : Prop :=
+  Forall (fun p => forall o, In o red -> c_h (p_rem p) = c_h o -> c_addr (p_rem p) = c_addr c) (s_checklist s).
+
+Lemma SK_reselect pid : satG SK mp_true (reselect pid).
+Proof. unfold reselect, set_selected. satG_split_eq; sk_leaf. Qed.
+
+Lemma okp_repl c p0 : okp p0 -> c_addr (p_rem p0) = c_addr c -> okp (set_p_prio_ov (Some (pair_priority p0)) (set_p_rem c p0)).
+Proof. unfold okp. cbn. intros H E Hs. rewrite <- E. apply H. exact Hs. Qed.
+
+Lemma SK_replace old c s :
+  SK s -> (forall p, In p (s_checklist s) -> c_h (p_rem p) = c_h old -> c_addr (p_rem p) = c_addr c) ->
+  SK (fst (replace_remote_in_pairs old c s)).
+Proof.
+  intros HS HF. unfold replace_remote_in_pairs. rewrite with_state_eq.
+  set (Lst := filter (fun p => c_h (p_rem p) =? c_h old) (s_checklist s)).
+  assert (HL : Forall (fun p => okp p /\ c_addr (p_rem p) = c_addr c) Lst).
+  { rewrite Forall_forall. intros p Hp. apply filter_In in Hp. destruct Hp as [Hin Eh]. apply Z.eqb_eq in Eh.
+    split; [unfold SK in HS; rewrite Forall_forall in HS; exact (HS p Hin)|exact (HF p Hin Eh)]. }
+  clearbody Lst. clear HF. revert s HS. induction Lst as [|p0 t IH]; intros s HS; cbn [for_each]; [exact HS|].
+  rewrite seq_fst. apply IH; [exact (Forall_inv_tail HL)|].
+  destruct (Forall_inv HL) as [Ho Ea].
+  rewrite !seq_fst, upd_pair_fst, modify_fst.
+  assert (HU : SK (upd (p_id p0) (fun _ => set_p_prio_ov (Some (pair_priority p0)) (set_p_rem c p0)) s)).
+  { apply SK_upd; [|exact HS]. intros q _ _. apply okp_repl; assumption. }
+  match goal with |- SK (fst (reselect _ ?X)) => assert (HX : SK X) by (eapply SK_view; [|exact HU]; cbn; destruct_matches; reflexivity);
+    exact (proj2 (SK_reselect (p_id p0) X HX)) end.
+Qed.
+
+(* after superseding one candidate every pair's remote is an old one or the new candidate *)
+Lemma rems_replace old c s :
+  Forall (fun p' => p_rem p' = c \/ In (p_rem p') (map p_rem (s_checklist s))) (s_checklist (fst (replace_remote_in_pairs old c s))).
+Proof.
+  unfold replace_remote_in_pairs. rewrite with_state_eq.
+  generalize (filter (fun p => c_h (p_rem p) =? c_h old) (s_checklist s)) as Lst. intros Lst.
+  assert (Hgen : forall s0, Forall (fun p' => p_rem p' = c \/ In (p_rem p') (map p_rem (s_checklist s))) (s_checklist s0) ->
+            Forall (fun p' => p_rem p' = c \/ In (p_rem p') (map p_rem (s_checklist s)))
+              (s_checklist (fst (for_each Lst (fun p => let repl := set_p_prio_ov (Some (pair_priority p)) (set_p_rem c p) in
+                 upd_pair (p_id p) (fun _ => repl) ;;
+                 modify (fun s => match s_nominated s with
+                                  | Some np => if p_id np =? p_id p then set_s_nominated (Some repl) s else s
+                                  | None => s end) ;;
+                 reselect (p_id p)) s0)))).
+  { induction Lst as [|p0 t IH]; intros s0 H0; cbn [for_each]; [exact H0|]. cbv zeta. rewrite seq_fst. apply IH.
+    rewrite !seq_fst, upd_pair_fst, modify_fst.
+    rewrite Forall_forall in *. intros q Hq.
+    assert (Hq' : In (p_rem q) (map p_rem (s_checklist (upd (p_id p0) (fun _ => set_p_prio_ov (Some (pair_priority p0)) (set_p_rem c p0)) s0)))).
+    { apply (in_map p_rem) in Hq. rewrite rems_reselect in Hq.
+      match type of Hq with In _ (map p_rem (s_checklist ?X)) =>
+        assert (E : s_checklist X = s_checklist (upd (p_id p0) (fun _ => set_p_prio_ov (Some (pair_priority p0)) (set_p_rem c p0)) s0))
+          by (cbn; destruct_matches; reflexivity); rewrite E in Hq end.
+      exact Hq. }
+    apply in_map_iff in Hq'. destruct Hq' as [q1 [E1 Hq1]]. rewrite <- E1.
+    unfold upd in Hq1. cbn in Hq1. apply in_map_iff in Hq1. destruct Hq1 as [q0 [E0 Hq0]].
+    destruct (p_id q0 =? p_id p0); subst q1; [left; reflexivity|apply H0; exact Hq0]. }
+  apply Hgen. rewrite Forall_forall. intros p Hp. right. apply in_map. exact Hp.
+Qed.
+
+Lemma same_addr_replace old c red s : same_addr_as c red s -> same_addr_as c red (fst (replace_remote_in_pairs old c s)).
+Proof.
+  intros H. unfold same_addr_as in *. pose proof (rems_replace old c s) as Hr. rewrite Forall_forall in *.
+  intros p' Hp' o Ho Eh. destruct (Hr p' Hp') as [E|Hin]; [rewrite E; reflexivity|].
+  apply in_map_iff in Hin. destruct Hin as [p [Ep Hp]]. rewrite <- Ep in *. exact (H p Hp o Ho Eh).
+Qed.
+
+Lemma unique_handle (l : list cand) a b : NoDup (map c_h l) -> In a l -> In b l -> c_h a = c_h b -> a = b.
+Proof.
+  induction l as [|x t IH]; cbn; intros Hnd Ha Hb E; [contradiction|].
+  inversion Hnd as [|? ? Hx Ht]; subst.
+  destruct Ha as [Ha|Ha]; destruct Hb as [Hb|Hb]; subst; try reflexivity.
+  - exfalso. apply Hx. apply in_map_iff. exists b. split; [symmetry; exact E|exact Hb].
+  - exfalso. apply Hx. apply in_map_iff. exists a. split; [exact E|exact Ha].
+  - apply IH; assumption.
+Qed.
+
+Lemma SK_add_remote_body_gen c set s :
+  SK s -> Rm s -> (forall e, In e set -> In e (s_remotes s)) -> SK (fst (add_remote_body c set s)).
+Proof.
+  intros HS [[Hnd _] HP] Hset. unfold add_remote_body.
+  set (red := if c_typ c =? CandidateTypePeerReflexive then [] else filter (fun e => (c_typ e =? CandidateTypePeerReflexive) && cand_taddr_eqb e c) set).
+  cbv zeta. rewrite seq_fst, modify_fst.
+  set (s1 := set_s_remotes _ s).
+  assert (HF : same_addr_as c red s1).
+  { unfold same_addr_as, s1. cbn [s_checklist set_s_remotes]. unfold PR in HP. eapply Forall_impl; [|exact HP]. cbn.
+    intros p Hp o Ho Eh.
+    assert (Hor : In o (s_remotes s) /\ cand_taddr_eqb o c = true).
+    { unfold red in Ho. destruct (c_typ c =? CandidateTypePeerReflexive); [destruct Ho|]. apply filter_In in Ho. destruct Ho as [Ho1 Ho2].
+      apply andb_prop in Ho2. split; [apply Hset; exact Ho1|tauto]. }
+    destruct Hor as [Hor Et].
+    assert (p_rem p = o) by (apply (unique_handle (s_remotes s)); assumption).
+    subst o. unfold cand_taddr_eqb in Et. apply andb_prop in Et. destruct Et as [Et _]. apply andb_prop in Et. destruct Et as [_ Et].
+    apply addr_eqb_eq. exact Et. }
+  assert (H1 : SK s1) by (eapply SK_view; [|exact HS]; reflexivity).
+  rewrite seq_fst.
+  assert (Hloop : forall reds s0, SK s0 -> same_addr_as c red s0 -> (forall o, In o reds -> In o red) ->
+            SK (fst (for_each reds (fun old => copy_activity old c ;; replace_remote_in_pairs old c ;; retarget_cache old c) s0))).
+  { induction reds as [|old t IH]; intros s0 H0 F0 Hsub; cbn [for_each]; [exact H0|]. rewrite seq_fst. apply IH.
+    - rewrite !seq_fst. unfold copy_activity at 1, retarget_cache. rewrite !modify_fst.
+      eapply SK_view; [|apply SK_replace]; [reflexivity| |].
+      + destruct_matches; first [exact H0|eapply SK_view; [|exact H0]; reflexivity].
+      + intros p Hp Eh. unfold same_addr_as in F0. rewrite Forall_forall in F0.
+        assert (Hp0 : In p (s_checklist s0)) by (revert Hp; destruct_matches; cbn; auto).
+        apply (F0 p Hp0 old); [apply Hsub; left; reflexivity|exact Eh].
+    - rewrite !seq_fst. unfold copy_activity at 1, retarget_cache. rewrite !modify_fst.
+      unfold same_addr_as. cbn [s_checklist set_s_cache].
+      apply same_addr_replace. unfold same_addr_as in *. destruct_matches; exact F0.
+    - intros o Ho. apply Hsub. right. exact Ho. }
+  pose proof (Hloop red s1 H1 HF (fun o Ho => Ho)) as H2.
+  match goal with |- SK (fst (?rest (fst (for_each red ?body s1)))) => set (s2 := fst (for_each red body s1)) in * end.
+  rewrite seq_fst, modify_fst.
+  assert (H3 : SK (set_s_remotes (s_remotes s2 ++ [c]) s2)) by (eapply SK_view; [|exact H2]; reflexivity).
+  destruct (c_tcp c =? TCPTypePassive); [exact H3|]. rewrite with_state_eq. apply (proj2 (SK_pairing c _ _ H3)).
 Qed.
 
 Lemma presU_add_remote_body c set : sat (preserves InvU) (add_remote_body c set).
@@ -229,21 +343,17 @@ Create HintDb agentcore_sk.
   tick accept_data inbound_data do_write conn_write conn_write_to_pair conn_read do_start do_set_remote_creds
   do_restart do_renominate renominate_op do_close validate_selected set_selected reselect : agentcore_sk.
 
-Definition op_no_supersede (o : op) (s : state) : Prop :=
-  match o with
-  | AddRemote c => no_supersede c (filter (fun e => c_net e =? c_net c) (s_remotes s))
-  | _ => True
-  end.
-
 Lemma SK_add_remote cfg c k s :
-  (forall ok, satG SK mp_true (k ok)) -> no_supersede c (filter (fun e => c_net e =? c_net c) (s_remotes s)) ->
-  SK s -> SK (fst (add_remote cfg c k s)).
+  (forall ok, satG SK mp_true (k ok)) -> Rm s -> SK s -> SK (fst (add_remote cfg c k s)).
 Proof.
-  intros Hk Hn Hs. unfold add_remote. rewrite with_state_eq. cbv beta iota.
+  intros Hk HR Hs. unfold add_remote. rewrite with_state_eq. cbv beta iota.
   destruct (s_conn s =? ConnectionStateFailed); [exact (proj2 (Hk false s Hs))|].
   destruct (negb (accepts_remote cfg c)); [exact (proj2 (Hk false s Hs))|].
   destruct (existsb _ _); [exact (proj2 (Hk true s Hs))|].
-  rewrite seq_fst. apply (proj2 (Hk true _ (proj2 (SK_add_remote_body c _ Hn s Hs)))).
+  rewrite seq_fst.
+  match goal with |- context [add_remote_body c ?set0 s] =>
+    assert (Hb : SK (fst (add_remote_body c set0 s))) by (apply SK_add_remote_body_gen; [exact Hs|exact HR|intros e He; apply filter_In in He; destruct He; assumption]) end.
+  exact (proj2 (Hk true _ Hb)).
 Qed.
 
 Lemma SK_nonremote cfg o : is_inbound o = false -> (match o with AddRemote _ => False | _ => True end) -> satG SK mp_true (step_m cfg o).
@@ -253,13 +363,14 @@ Proof.
 Qed.
 
 Theorem SK_api cfg o s :
-  is_inbound o = false -> op_no_supersede o s -> SK s -> SK (fst (step cfg s o)).
+  is_inbound o = false -> Rc s -> SK s -> SK (fst (step cfg s o)).
 Proof.
-  intros Hi Hn Hs. unfold step.
+  intros Hi HR Hs. unfold step.
   destruct (match o with AddRemote _ => true | _ => false end) eqn:Er.
-  - destruct o; try discriminate Er. cbn [step_m op_no_supersede] in *.
-    rewrite with_state_eq. destruct (c_tcp c =? TCPTypeActive); [exact Hs|]. destruct (s_closed s); [exact Hs|].
-    apply SK_add_remote; [intros ok; sk_leaf|exact Hn|exact Hs].
+  - destruct o; try discriminate Er. cbn [step_m] in *.
+    rewrite with_state_eq. destruct (c_tcp c =? TCPTypeActive); [exact Hs|]. destruct (s_closed s) eqn:Ec; [exact Hs|].
+    destruct HR as [Hc|HR]; [rewrite Hc in Ec; discriminate|].
+    apply SK_add_remote; [intros ok; sk_leaf|exact HR|exact Hs].
   - apply (proj2 (SK_nonremote cfg o Hi ltac:(destruct o; try exact I; discriminate Er) s Hs)).
 Qed.
 
@@ -281,7 +392,7 @@ Definition KB (h : Z) (a : addr) : Prop :=
     ep_h (nth j (t_b t) dflt_ep) = h /\ ep_pub (nth i (t_a t) dflt_ep) = a /\
     fst (t_link t i j) = true /\ snd (t_link t i j) = true.
 
-Definition AgentInv (K : Z -> addr -> Prop) (s : state) : Prop := InvU s /\ Lc s /\ SK K s.
+Definition AgentInv (K : Z -> addr -> Prop) (s : state) : Prop := InvU s /\ Lc s /\ Rc s /\ SK K s.
 
 Definition flight_ok (f : flight) : Prop :=
   routed t f /\ (m_class (f_msg f) = 2 -> if f_to_a f then KA (f_lh f) (f_src f) else KB (f_lh f) (f_src f)).
@@ -289,33 +400,41 @@ Definition flight_ok (f : flight) : Prop :=
 Definition SysInv (sy : sys) : Prop :=
   AgentInv KA (sy_a sy) /\ AgentInv KB (sy_b sy) /\ Forall flight_ok (sy_net sy).
 
-(* a schedule step that does not supersede a peer-reflexive candidate by a signalled one *)
+(* admissible schedule steps: remote candidates handed to an agent are fresh objects (handles below the agent's
+   own counter, not in use), and a datagram arrives on a socket of its own address family *)
 Definition sys_step_ok (sy : sys) (o : sys_op) : Prop :=
   match o with
-  | SApi true op => op_no_supersede op (sy_a sy)
-  | SApi false op => op_no_supersede op (sy_b sy)
+  | SApi true op => op_ok op (sy_a sy)
+  | SApi false op => op_ok op (sy_b sy)
+  | SDeliver n =>
+    match nth_error (sy_net sy) n with
+    | Some f => op_ok (InStun (f_lh f) (f_src f) (f_msg f)) (if f_to_a f then sy_a sy else sy_b sy)
+    | None => True
+    end
   | _ => True
   end.
 
 Lemma agent_api (K : Z -> addr -> Prop) cfg s o :
-  is_inbound o = false -> op_no_supersede o s -> AgentInv K s -> AgentInv K (fst (step cfg s o)).
+  is_inbound o = false -> op_ok o s -> AgentInv K s -> AgentInv K (fst (step cfg s o)).
 Proof.
-  intros Hi Hn [HU [HL HS]]. split; [exact (step_preserves_InvU cfg o s HU)|]. split; [apply step_Lc; exact HL|].
-  apply SK_api; assumption.
+  intros Hi Hn [HU [HL [HR HS]]]. split; [exact (step_preserves_InvU cfg o s HU)|]. split; [apply step_Lc; exact HL|].
+  split; [apply step_Rc; assumption|]. apply SK_api; assumption.
 Qed.
 
 Lemma agent_deliver (K : Z -> addr -> Prop) cfg s lh src m :
-  cf_lite cfg = false -> (m_class m = 2 -> K lh src) -> AgentInv K s -> AgentInv K (fst (step cfg s (InStun lh src m))).
+  cf_lite cfg = false -> op_ok (InStun lh src m) s -> (m_class m = 2 -> K lh src) -> AgentInv K s -> AgentInv K (fst (step cfg s (InStun lh src m))).
 Proof.
-  intros Hl HK [HU [HL HS]]. unfold step. cbn [step_m]. rewrite with_state_eq.
-  destruct (s_closed s) eqn:Ec; [split; [exact HU|split; [exact HL|exact HS]]|].
-  destruct (find_local lh s) as [l|] eqn:El; [|split; [exact HU|split; [exact HL|exact HS]]].
+  intros Hl Hok HK [HU [HL [HR HS]]].
+  assert (HR' : Rc (fst (step cfg s (InStun lh src m)))) by (apply step_Rc; assumption).
+  unfold step in *. cbn [step_m] in *. rewrite with_state_eq in *.
+  destruct (s_closed s) eqn:Ec; [split; [exact HU|split; [exact HL|split; [exact HR|exact HS]]]|].
+  destruct (find_local lh s) as [l|] eqn:El; [|split; [exact HU|split; [exact HL|split; [exact HR|exact HS]]]].
   destruct HL as [Hc|HLo]; [rewrite Hc in Ec; discriminate|].
   assert (H3 : Inv3 K l s).
   { split; [exact Ec|]. split; [exact HU|]. split; [right; split; [exact HLo|exact (find_local_in _ _ _ El)]|exact HS]. }
   rewrite <- (find_local_h _ _ _ El) in HK.
   destruct (proj2 (Inv3_handle_inbound K cfg l src m Hl HK s H3)) as [_ [HU' [HLl' HS']]].
-  split; [exact HU'|]. split; [|exact HS'].
+  split; [exact HU'|]. split; [|split; [exact HR'|exact HS']].
   destruct HLl' as [Hc|[HL' _]]; [left; exact Hc|right; exact HL'].
 Qed.
 
@@ -372,7 +491,7 @@ Proof.
     assert (Hf : flight_ok f) by (rewrite Forall_forall in Hn; exact (Hn f Hin)). destruct Hf as [Hr Hc].
     pose proof (Forall_remove_nth _ n _ Hn) as Hn'.
     unfold agent_step. destruct (f_to_a f) eqn:Eto; cbn [sy_a sy_b sy_net].
-    + pose proof (agent_deliver KA cfga (sy_a sy) (f_lh f) (f_src f) (f_msg f) Hla Hc Ha) as H1.
+    + pose proof (agent_deliver KA cfga (sy_a sy) (f_lh f) (f_src f) (f_msg f) Hla Hok Hc Ha) as H1.
       assert (H2 : Forall (response_to (f_lh f) (f_src f)) (snd (step cfga (sy_a sy) (InStun (f_lh f) (f_src f) (f_msg f))))).
       { unfold step. cbn [step_m]. unfold with_state. destruct (s_closed (sy_a sy)); [constructor|].
         destruct (find_local (f_lh f) (sy_a sy)) as [l|] eqn:El; [|constructor].
@@ -381,7 +500,7 @@ Proof.
       destruct (step cfga (sy_a sy) _) as [s' outs]. cbn [fst snd] in *.
       split; [exact H1|split; [exact Hb|]]. cbn [sy_net]. apply Forall_app. split; [exact Hn'|].
       pose proof (route_deliver_ok f outs Hr H2) as H3. rewrite Eto in H3. exact H3.
-    + pose proof (agent_deliver KB cfgb (sy_b sy) (f_lh f) (f_src f) (f_msg f) Hlb Hc Hb) as H1.
+    + pose proof (agent_deliver KB cfgb (sy_b sy) (f_lh f) (f_src f) (f_msg f) Hlb Hok Hc Hb) as H1.
       assert (H2 : Forall (response_to (f_lh f) (f_src f)) (snd (step cfgb (sy_b sy) (InStun (f_lh f) (f_src f) (f_msg f))))).
       { unfold step. cbn [step_m]. unfold with_state. destruct (s_closed (sy_b sy)); [constructor|].
         destruct (find_local (f_lh f) (sy_b sy)) as [l|] eqn:El; [|constructor].
@@ -412,7 +531,7 @@ Qed.
 Lemma SysInv_init lua lpa lub lpb : SysInv (sys_init lua lpa lub lpb).
 Proof.
   unfold SysInv, sys_init, AgentInv. cbn.
-  repeat split; try apply InvU_init; try apply Lc_init; try (unfold SK; cbn; constructor).
+  repeat split; try apply InvU_init; try apply Lc_init; try apply Rc_init; try (unfold SK; cbn; constructor).
 Qed.
 End System.
 
@@ -453,7 +572,7 @@ Theorem valid_pairs_reachable_both_ways cfga cfgb t lua lpa lub lpb ops :
      exists p, In p (s_checklist (sy_b sy)) /\ p_id p = id /\ KB t (c_h (p_loc p)) (c_addr (p_rem p))).
 Proof.
   intros Hla Hlb Hw Hok sy.
-  pose proof (sys_run_SysInv cfga cfgb t Hla Hlb Hw ops _ Hok (SysInv_init t lua lpa lub lpb)) as [[_ [_ HA]] [[_ [_ HB]] _]].
+  pose proof (sys_run_SysInv cfga cfgb t Hla Hlb Hw ops _ Hok (SysInv_init t lua lpa lub lpb)) as [[_ [_ [_ HA]]] [[_ [_ [_ HB]]] _]].
   pose proof (sys_run_G cfga cfgb t ops (sys_init lua lpa lub lpb) (conj (G_init lua lpa) (G_init lub lpb))) as [[GA _] [GB _]].
   fold sy in HA, HB, GA, GB. split; [exact HA|]. split; [exact HB|]. split.
   - intros id Hs. unfold InvSV in GA. rewrite Hs in GA. destruct GA as [p [Hin [Hid [Hst _]]]].
